@@ -33,6 +33,30 @@ def blob_bytes(bid, length):
     return data
 
 
+class ZeroFile(object):
+    """a readable, seekable file of `length` zero bytes that occupies no memory (files > 4 GiB)"""
+    def __init__(self, length):
+        self.length = length
+        self.pos = 0
+        self.mode = 'rb'
+
+    def seek(self, off, whence=0):
+        self.pos = off if whence == 0 else (self.pos + off if whence == 1 else self.length + off)
+        return self.pos
+
+    def tell(self):
+        return self.pos
+
+    def read(self, n=-1):
+        left = max(0, self.length - self.pos)
+        n = left if n is None or n < 0 else min(n, left)
+        self.pos += n
+        return bytes(n)
+
+    def close(self):
+        pass
+
+
 class Table(object):
     def __init__(self, d):
         self.names = d['names']
@@ -47,7 +71,12 @@ class Table(object):
         self.rev_t = dict((v, k) for k, v in self.targets.items())
         self.sha = {}
         self.blobdata = {}
+        self.virtual = {}       # blob id -> declared length of a content that is never materialised
         for bid, spec in self.blobs.items():
+            if isinstance(spec, dict) and spec.get('virtual'):
+                self.virtual[bid] = spec['len']
+                self.blobdata[bid] = b''
+                continue
             if isinstance(spec, dict):
                 data = bytes.fromhex(spec['hex']) if 'hex' in spec else blob_bytes(bid, spec['len'])
                 if 'prefix_hex' in spec:
@@ -63,6 +92,18 @@ class Table(object):
         path = name if os.path.isabs(name) else os.path.join(SPEC, name)
         with open(path) as f:
             return cls(json.load(f))
+
+    def blob_len(self, bid):
+        """length as the model sees it (TLC integers are 32 bit: huge contents are capped)"""
+        return min(self.virtual[bid], (1 << 31) - 1) if bid in self.virtual else len(self.blobdata[bid])
+
+    def blob_fp(self, bid):
+        """(file object, length) to hand to add_fp"""
+        if bid in self.virtual:
+            return ZeroFile(self.virtual[bid]), self.virtual[bid]
+        import io
+        data = self.blobdata[bid]
+        return io.BytesIO(data), len(data)
 
     def path(self, ns, p):
         """Model path (list of name ids) -> API path string in namespace ns."""
